@@ -64,6 +64,15 @@ func (e *Engine) verifyFunc(fn *ssa.Function) (u *Unit) {
 		u.assume("true", not(g))
 	}
 	u.emitAxioms(fr, st)
+	for _, gi := range e.globalInvs {
+		c := &Clause{Fn: gi.Fn, FnName: gi.FnName, Label: gi.Label}
+		u.assume("true", fr.evalSpec(c, nil, st, nil))
+		if gi.Checked {
+			u.globalInvsUsed = append(u.globalInvsUsed, "globalinv (variables never assigned outside init): "+gi.Text)
+		} else {
+			u.globalInvsUsed = append(u.globalInvsUsed, "configinv (assumed configuration): "+gi.Text)
+		}
+	}
 	pre := st.clone()
 	if ct != nil {
 		for _, r := range ct.Requires {
